@@ -730,7 +730,7 @@ def sentinel_table(est_kind, N=None):
     X = "X"
     mean_row = {"n0": {NANC}, "n1": {X}, "const": {X}}
     var_row = {"n0": {NANC}, "n1": {ZERO}, "const": {ZERO}}
-    svar_row = {"n0": {NANC}, "n1": {NANC}}
+    svar_row = {"n0": {NANC}, "n1": {NANC}, "n2": {"DEFINED"}, "n3": {"DEFINED"}}
     t = {}
     if est_kind == "Mean":
         t["mean"] = mean_row
@@ -746,8 +746,8 @@ def sentinel_table(est_kind, N=None):
     elif est_kind == "Moments":
         t["mean"] = mean_row
         t["sample_variance"] = svar_row
-        t["sample_skewness"] = {"n0": {NANC}, "n1": {ZERO}}
-        t["sample_excess_kurtosis"] = {"n0": {NANC}, "n1": {NANC}, "n2": {NANC}, "n3": {NANC}}
+        t["sample_skewness"] = {"n0": {NANC}, "n1": {ZERO}, "n2": {"DEFINED"}, "n3": {"DEFINED"}}
+        t["sample_excess_kurtosis"] = {"n0": {NANC}, "n1": {NANC}, "n2": {NANC}, "n3": {NANC}, "n4": {"DEFINED"}}
         for p in range(0, (N or 4) + 1):
             if p == 0:
                 row = {"n0": {ONE}, "n1": {ONE}, "const": {ONE}, "n2": {ONE}}
@@ -790,7 +790,7 @@ def sentinel_table(est_kind, N=None):
     return t
 
 
-def r_sentinel(ctx, db, est, kind, N=None, weighted=False, ctor_args=None, states=("n0", "n1", "const", "n2", "n3"),
+def r_sentinel(ctx, db, est, kind, N=None, weighted=False, ctor_args=None, states=("n0", "n1", "n1w0", "const", "n2", "n3", "n4"),
                only=None):
     table = sentinel_table(kind, N)
     leaf = count_leaf(ctx, db, est)
@@ -839,6 +839,11 @@ def r_sentinel(ctx, db, est, kind, N=None, weighted=False, ctor_args=None, state
                     exp.add(is_atom("o_" + first_param(db, est, 0)))
                 elif e == "Y":
                     exp.add(is_atom("o_" + first_param(db, est, 1)))
+                elif e == "DEFINED":
+                    def defined(p, v):
+                        return is_float(v) and not (F.is_lit(v) and (F.is_nan_lit(v) or abs(F.litval(v)) == float("inf")))
+                    defined.__name__ = "a computed value (not the NaN sentinel)"
+                    exp.add(defined)
                 elif e == "W":
                     exp.add(is_atom("o_" + first_param(db, est, 1)))
                 elif e == "WW":
